@@ -5,6 +5,115 @@ use crypto_bigint::{
     WrappingNeg, WrappingSub,
 };
 
+pub const OPS: &[&str] = &[
+    "boxed.adc",
+    "boxed.adc_assign",
+    "boxed.add",
+    "boxed.add.rr",
+    "boxed.add.rv",
+    "boxed.add.vr",
+    "boxed.add_assign",
+    "boxed.add_assign.prim",
+    "boxed.add_assign.prim_asg",
+    "boxed.add_assign.prim_ref",
+    "boxed.add_assign.prim_val",
+    "boxed.add_assign.ref",
+    "boxed.add_assign.uint",
+    "boxed.add_assign.uint_op",
+    "boxed.add_assign.uint_op_ref",
+    "boxed.add_assign.uint_ref",
+    "boxed.checked_add",
+    "boxed.checked_sub",
+    "boxed.sbb",
+    "boxed.sbb_assign",
+    "boxed.sub",
+    "boxed.sub.rr",
+    "boxed.sub.rv",
+    "boxed.sub.vr",
+    "boxed.sub_assign",
+    "boxed.sub_assign.prim",
+    "boxed.sub_assign.prim_asg",
+    "boxed.sub_assign.prim_ref",
+    "boxed.sub_assign.prim_val",
+    "boxed.sub_assign.ref",
+    "boxed.sub_assign.uint",
+    "boxed.sub_assign.uint_op",
+    "boxed.sub_assign.uint_op_ref",
+    "boxed.sub_assign.uint_ref",
+    "boxed.wrapping_add",
+    "boxed.wrapping_add.trait",
+    "boxed.wrapping_add.wrapper",
+    "boxed.wrapping_add_assign",
+    "boxed.wrapping_add_assign.ref",
+    "boxed.wrapping_neg",
+    "boxed.wrapping_neg.trait",
+    "boxed.wrapping_sub",
+    "boxed.wrapping_sub.trait",
+    "boxed.wrapping_sub.wrapper",
+    "boxed.wrapping_sub_assign",
+    "boxed.wrapping_sub_assign.ref",
+    "limb.adc",
+    "limb.add",
+    "limb.checked_add",
+    "limb.checked_add.wrapper",
+    "limb.checked_sub",
+    "limb.checked_sub.wrapper",
+    "limb.mac",
+    "limb.overflowing_add",
+    "limb.saturating_add",
+    "limb.saturating_sub",
+    "limb.sbb",
+    "limb.sub",
+    "limb.sub.ref",
+    "limb.wrapping_add",
+    "limb.wrapping_add.trait",
+    "limb.wrapping_add.wrapper",
+    "limb.wrapping_add.wrapper_assign",
+    "limb.wrapping_neg",
+    "limb.wrapping_neg.trait",
+    "limb.wrapping_sub",
+    "limb.wrapping_sub.trait",
+    "limb.wrapping_sub.wrapper",
+    "limb.wrapping_sub.wrapper_assign",
+    "uint.adc",
+    "uint.add",
+    "uint.add.assign",
+    "uint.add.assign_ref",
+    "uint.add.ref",
+    "uint.carrying_neg",
+    "uint.checked_add",
+    "uint.checked_add.wrapper",
+    "uint.checked_add.wrapper_assign",
+    "uint.checked_expr",
+    "uint.checked_sub",
+    "uint.checked_sub.wrapper",
+    "uint.checked_sub.wrapper_assign",
+    "uint.saturating_add",
+    "uint.saturating_sub",
+    "uint.sbb",
+    "uint.sub",
+    "uint.sub.assign",
+    "uint.sub.assign_ref",
+    "uint.sub.ref",
+    "uint.wrapping_add",
+    "uint.wrapping_add.trait",
+    "uint.wrapping_add.wrapper",
+    "uint.wrapping_add.wrapper_assign",
+    "uint.wrapping_add.wrapper_assign_ref",
+    "uint.wrapping_add.wrapper_ref",
+    "uint.wrapping_neg",
+    "uint.wrapping_neg.trait",
+    "uint.wrapping_neg.wrapper",
+    "uint.wrapping_neg.wrapper_ref",
+    "uint.wrapping_neg_if",
+    "uint.wrapping_sub",
+    "uint.wrapping_sub.trait",
+    "uint.wrapping_sub.wrapper",
+    "uint.wrapping_sub.wrapper_assign",
+    "uint.wrapping_sub.wrapper_assign_ref",
+    "uint.wrapping_sub.wrapper_ref",
+];
+
 fn limb_ops(op: &str, a: &Args) -> Option<Out> {
     let x = Limb(sc(a, 0));
     let y = Limb(sc(a, 1));
@@ -189,6 +298,9 @@ fn boxed_ops(op: &str, a: &Args) -> Option<Out> {
 }
 
 pub fn run(op: &str, a: &Args) -> Option<Out> {
+    if !OPS.contains(&op) {
+        return None;
+    }
     if op.starts_with("limb.") {
         limb_ops(op, a)
     } else if op.starts_with("uint.") {
